@@ -23,8 +23,8 @@ def shapes():
   S = {}
   fa = [R('B', N(1)), R('B', N(2)), R('B', N(2))]
   fb = [R('B', N(2)), R('B', N(3))]
-  def mk(name, rules, grounds, preds, explicit=None):
-    S[name] = dict(rules=rules, grounds=grounds, preds=preds, explicit=explicit or {}, facts=dict(A=fa, B=fb))
+  def mk(name, rules, grounds, preds, explicit=None, alias_of=None, dataset=None):
+    S[name] = dict(rules=rules, grounds=grounds, preds=preds, explicit=explicit or {}, facts=dict(A=fa, B=fb), alias_of=alias_of or {}, dataset=dataset)
   mk('plain_twice', [R('P', x, body=(Lit('B', x), Cmp('>', x, N(1)))), R('T', x, y, body=(Lit('P', x), Lit('P', y)))], ['P'], ['P', 'T'])
   mk('aggregating', [R('P', x, named={'c': Aggr('Sum', N(1))}, body=(Lit('B', x),), distinct=True), R('T', x, body=(Lit('P', x, c=y), Cmp('>', y, N(1)))), R('U', x, y, body=(Lit('P', x, c=y),))], ['P'], ['P', 'T', 'U'])
   mk('chain', [R('P', x, body=(Lit('B', x),)), R('Q', Bin('+', x, N(10)), body=(Lit('P', x),)), R('T', x, z, body=(Lit('P', x), Lit('Q', z)))], ['P', 'Q'], ['P', 'Q', 'T'])
@@ -47,36 +47,69 @@ def shapes():
   mk('chain_of_four', [R('P', x, body=(Lit('B', x),)), R('Q', Bin('+', x, N(10)), body=(Lit('P', x),)), R('W', Bin('+', x, N(100)), body=(Lit('Q', x),)), R('Z', x, named={'n': Aggr('Count', x)}, body=(Lit('W', x),), distinct=True),
                        R('T', x, y, body=(Lit('Z', x, n=y), Lit('P', V('z')), Cmp('<', V('z'), x)))], ['P', 'Q', 'W', 'Z'], ['P', 'W', 'Z', 'T'])
   mk('falsy_values', [R('P', Bin('-', x, x), lang.S(''), Bin('-', N(1), x), body=(Lit('B', x),)), R('T', y, z, body=(Lit('P', N(0), y, z),)), R('U', y, named={'n': Aggr('Sum', z), 'c': Aggr('Count', x)}, body=(Lit('P', x, y, z),), distinct=True)], ['P'], ['P', 'T', 'U'])
+  # a predicate grounded to ANOTHER predicate's table (`@Ground(Snap, Stage)`, the chain-breaking idiom): its readers read whatever that table
+  # holds and do not recompute Stage; the target has an explicit table name, and an alias of an alias
+  mk('alias_of_explicit', [R('Stage', x, Bin('*', x, N(2)), body=(Lit('B', x),)), R('Save', Aggr('Count', x), body=(Lit('Stage', x, y),), distinct=True), R('T', x, y, body=(Lit('Snap', x, y),)),
+                           R('U', Aggr('Sum', y), body=(Lit('View', x, y),), distinct=True)], ['Stage'], ['Save', 'T', 'U'], {'Stage': 'logica_home.stage_current'}, alias_of={'Snap': 'Stage', 'View': 'Snap'})
+  mk('alias_of_default', [R('Stage', x, body=(Lit('B', x),)), R('Save', Aggr('Count', x), body=(Lit('Stage', x),), distinct=True), R('T', x, body=(Lit('Snap', x), Cmp('>', x, N(1))))], ['Stage'], ['Save', 'T'], alias_of={'Snap': 'Stage'})
+  # an explicit @Dataset naming a second attached database: default-named grounded tables live there, not in logica_home
+  mk('dataset_archive', [R('P', x, body=(Lit('B', x), Cmp('>', x, N(1)))), R('Q', Bin('+', x, N(10)), body=(Lit('P', x),)), R('T', x, y, body=(Lit('P', x), Lit('Q', y)))], ['P', 'Q'], ['P', 'Q', 'T'], dataset='archive')
   return S
 
 
 def program(shape, version, home, alias='logica_home'):
   stmts = [Ann('@AttachDatabase("%s", "%s");' % (alias, home))]
+  if shape.get('dataset'):
+    stmts += [Ann('@AttachDatabase("%s", "%s");' % (shape['dataset'], home.replace('home.db', shape['dataset'] + '.db'))), Ann('@Dataset("%s");' % shape['dataset'])]
   for g in shape['grounds']:
     if g in shape['explicit']: stmts.append(Ann('@Ground(%s, "%s");' % (g, shape['explicit'][g])))
     else: stmts.append(Ann('@Ground(%s);' % g))
+  for a, t in shape.get('alias_of', {}).items(): stmts.append(Ann('@Ground(%s, %s);' % (a, t)))
   return Program(stmts + shape['facts'][version] + shape['rules'])
 
 
 def table_name(shape, g):
+  if shape.get('dataset') and g not in shape['explicit']: return shape['dataset'] + ':' + g
   return shape['explicit'].get(g, 'logica_home.' + g).split('.', 1)[1]
 
 
 def dump(path):
-  """canonical dump of every table of the file"""
-  con = sqlite3.connect(path)
+  """canonical dump of every table of the file (and of the other attached files next to it, their tables prefixed with the file's name)"""
   out = {}
-  for (name,) in con.execute("select name from sqlite_master where type='table' order by name").fetchall():
-    cur = con.execute('select * from "%s"' % name)
-    cols = [d[0] for d in cur.description]
-    out[name] = [cols, sorted([[str(v) for v in r] for r in cur.fetchall()])]
-  con.close()
+  import glob as _g
+  for f in sorted(_g.glob(os.path.join(os.path.dirname(path), '*.db'))):
+    prefix = '' if f == path else os.path.basename(f)[:-3] + ':'
+    con = sqlite3.connect(f)
+    for (name,) in con.execute("select name from sqlite_master where type='table' order by name").fetchall():
+      cur = con.execute('select * from "%s"' % name)
+      cols = [d[0] for d in cur.description]
+      out[prefix + name] = [cols, sorted([[str(v) for v in r] for r in cur.fetchall()])]
+    con.close()
   return out
 
 
-def model_rows(shape, version, pred):
+class TableMissing(Exception): pass
+
+
+def resolve_alias(shape, a):
+  while a in shape.get('alias_of', {}): a = shape['alias_of'][a]
+  return a
+
+
+def model_rows(shape, version, pred, mstate=None):
   rules = [s for s in shape['facts'][version] + shape['rules'] if isinstance(s, Rule)]
-  ev = refsem.Evaluator(rules, {})
+  tables = {}
+  for a in shape.get('alias_of', {}):
+    # the alias holds what the target's table held when it was last written (by a run under some version of the facts)
+    target = resolve_alias(shape, a)
+    wv = (mstate or {}).get('__written:' + table_name(shape, target))
+    if wv is None: tables[a] = None
+    else:
+      tc, tr = refsem.Evaluator([s for s in shape['facts'][wv] + shape['rules'] if isinstance(s, Rule)], {}).rows(target)
+      tables[a] = (list(tc), list(tr))
+  ev = refsem.Evaluator(rules, {a: t for a, t in tables.items() if t is not None})
+  used = deps_closure(ev, pred) | {pred}
+  if any(tables.get(a, 0) is None for a in used if a in tables): raise TableMissing(pred)
   cols, rows = ev.rows(pred)
   return cols, rows, ev
 
@@ -111,14 +144,22 @@ class Machine:
     return self.scripts[k]
 
   def reset(self):
-    if os.path.exists(self.home): os.remove(self.home)
+    import glob as _g
+    for f in _g.glob(os.path.join(self.workdir, '*.db')): os.remove(f)
     con = sqlite3.connect(self.home)
+    other = None
+    if self.shape.get('dataset'):
+      other = sqlite3.connect(os.path.join(self.workdir, self.shape['dataset'] + '.db'))
+      other.execute('create table keepme(a)'); other.execute('insert into keepme values (1)')
     if self.init == 'stale':
       for g in self.shape['grounds']:
-        con.execute('create table "%s"(zz, ww, qq)' % table_name(self.shape, g))
-        con.execute('insert into "%s" values (99, 98, 97)' % table_name(self.shape, g))
+        tn = table_name(self.shape, g); c = con
+        if ':' in tn: tn = tn.split(':', 1)[1]; c = other
+        c.execute('create table "%s"(zz, ww, qq)' % tn)
+        c.execute('insert into "%s" values (99, 98, 97)' % tn)
       con.execute('create table unrelated(a)'); con.execute('insert into unrelated values (7)')
     con.commit(); con.close()
+    if other: other.commit(); other.close()
 
   def apply(self, version, op):
     """execute one operation on the real file; -> (new version, output or None)"""
@@ -168,26 +209,32 @@ def model_apply(m, mstate, version, op):
   if op == 'switch': return mstate, ('B' if version == 'A' else 'A'), None
   if op == 'wfall':
     new = dict(mstate); outs = {}
+    if m.shape.get('alias_of'): return mstate, version, 'UNSPECIFIED'     # joint runs of alias readers and writers: the order is not prescribed
     for pr in m.shape['preds']:
-      cols, rows, ev = model_rows(m.shape, version, pr)
+      cols, rows, ev = model_rows(m.shape, version, pr, mstate)
       outs[pr] = (list(cols), sorted([[sval(v) for v in r] for r in rows]))
       for g in m.shape['grounds']:
         if g != pr and g in deps_closure(ev, pr):
           gc, gr = ev.rows(g)
           new[table_name(m.shape, g)] = [list(gc), sorted([[sval(v) for v in r] for r in gr])]
+          new['__written:' + table_name(m.shape, g)] = version
     return new, version, ('many', outs)
   op = op[3:] if op.startswith('wf:') else op
-  cols, rows, ev = model_rows(m.shape, version, op)
+  try:
+    cols, rows, ev = model_rows(m.shape, version, op, mstate)
+  except TableMissing:
+    return mstate, version, 'FAILS'
   new = dict(mstate)
   for g in m.shape['grounds']:
     if g != op and g in deps_closure(ev, op):
       gc, gr = ev.rows(g)
       new[table_name(m.shape, g)] = [list(gc), sorted([[sval(v) for v in r] for r in gr])]
+      new['__written:' + table_name(m.shape, g)] = version
   return new, version, (list(cols), sorted([[sval(v) for v in r] for r in rows]))
 
 
 def norm_dump(d):
-  return {k: [sorted(v[0]), sorted([sorted(zip(v[0], r)) for r in v[1]])] for k, v in d.items()}
+  return {k: [sorted(v[0]), sorted([sorted(zip(v[0], r)) for r in v[1]])] for k, v in d.items() if not k.startswith('__written:')}
 
 
 def explore_machine(shape_name, init, depth, alias='logica_home'):
@@ -195,7 +242,7 @@ def explore_machine(shape_name, init, depth, alias='logica_home'):
   viol = []; stats = dict(transitions=0, comparisons=0, replays=0); samples = []
   try:
     m = Machine(shape_name, init, workdir, alias)
-    ops = list(m.shape['preds']) + ['wf:' + p for p in m.shape['preds']] + ['wfall', 'switch']
+    ops = list(m.shape['preds']) + ['wf:' + p for p in m.shape['preds']] + ([] if m.shape.get('alias_of') else ['wfall']) + ['switch']
     def build(hist):
       """fresh file, replay history on the real implementation and on the model"""
       m.reset(); stats['replays'] += 1
@@ -237,7 +284,9 @@ def explore_machine(shape_name, init, depth, alias='logica_home'):
             bad('wrong-table-contents', 'after the joint run tables %s differ: file %s, model %s' % (diff, {k: d.get(k) for k in diff}, {k: mstate.get(k) for k in diff}), nxt)
         elif op != 'switch':
           stats['comparisons'] += 2
-          if out[0] != 'rows':
+          if mout == 'FAILS':
+            if out[0] == 'rows': bad('reads-a-table-that-was-never-written', 'run(%s) printed %s although the table its alias stands for was not written yet' % (op, out[2][:4]), nxt)
+          elif out[0] != 'rows':
             bad('run-failed', 'run(%s) failed: %s' % (op, out), nxt)
           else:
             hdr, rows, main = out[1], out[2], out[3]
@@ -250,8 +299,8 @@ def explore_machine(shape_name, init, depth, alias='logica_home'):
               bad('wrong-output', 'run(%s) printed %s %s, model %s %s' % (op, hdr, rows[:6], ecols, erows[:6]), nxt)
             # dependants read the table rather than recomputing
             for g in m.shape['grounds']:
-              ev = model_rows(m.shape, 'A', pname)[2]
-              if g != pname and g in ev.deps(pname) and table_name(m.shape, g) not in main:
+              ev = model_rows(m.shape, 'A', pname, mstate)[2]
+              if g != pname and g in ev.deps(pname) and table_name(m.shape, g).split(':')[-1] not in main:
                 bad('dependant-does-not-read-table', 'main SQL of %s does not mention table %s' % (op, table_name(m.shape, g)), nxt)
           if norm_dump(d) != norm_dump(mstate):
             diff = [k for k in set(d) | set(mstate) if norm_dump(d).get(k) != norm_dump(mstate).get(k)]
@@ -261,7 +310,7 @@ def explore_machine(shape_name, init, depth, alias='logica_home'):
           if len(nxt) >= 2 and nxt[-1] == nxt[-2]:
             stats['comparisons'] += 1
             pv, pd, _, plast = build(nxt[:-1])
-            if norm_dump(pd) != norm_dump(d) or (plast[2][0] == 'rows' and out[0] == 'rows' and plast[2][1:3] != out[1:3]):
+            if norm_dump(pd) != norm_dump(d) or (plast[2] is not None and plast[2][0] == 'rows' and out[0] == 'rows' and plast[2][1:3] != out[1:3]):
               bad('not-idempotent', 'second run(%s) changed the file or the output' % op, nxt)
         k = canon(version, d)
         if k not in seen:
